@@ -71,6 +71,28 @@ def run(tier, seed):
         if sum(b["count"] for b in parsed["blocks"]) != len(c["records"]):
             run.fail(case, "block record counts do not sum to the number of records written", kind="oracle")
             continue
+        # the records are recoverable from the file alone: the schema and codec the HEADER announces, the block payloads
+        try:
+            hmeta = dict(parsed["meta"])
+            hschema = fastavro.parse_schema(json.loads(hmeta["avro.schema"].decode()))
+            hcodec = hmeta.get("avro.codec", b"null").decode()
+            recovered = []
+            for b in parsed["blocks"]:
+                bio = io.BytesIO(CODECS[hcodec][1](b["comp"]))
+                for _ in range(b["count"]):
+                    recovered.append(canon(to_wire(fastavro.schemaless_reader(bio, hschema))))
+                if bio.read(1) != b"":
+                    raise ValueError("block payload longer than its records")
+            want = []
+            for r in c["records"]:
+                bo = io.BytesIO()
+                fastavro.schemaless_writer(bo, ps, r)
+                want.append(canon(to_wire(fastavro.schemaless_reader(io.BytesIO(bo.getvalue()), ps))))
+            if recovered != want:
+                raise ValueError("records decoded with the header's schema differ from the records written")
+        except Exception as e:  # noqa
+            run.fail(dict(case, meta=c.get("meta")), "the records cannot be recovered from the file alone (header schema + codec + blocks): %r" % (e,), kind="oracle")
+            continue
         blks = [(b.offset, b.size, b.num_records) for b in fastavro.block_reader(io.BytesIO(data))]
         t = tiling_ok(data, parsed["header_len"], blks, len(c["records"]))
         if t:
@@ -230,4 +252,43 @@ def run(tier, seed):
                 run.fail({"bytes": b.hex(), "is_avro": got, "expected": exp, "tags": ["is_avro"]},
                          "is_avro does not answer 'begins with the four magic bytes'", kind="oracle")
     run.tag("is_avro", len(strings))
+    # is_avro on buffered io streams: a source whose first delivery is shorter than the magic; a stream whose buffer
+    # holds only 1-3 bytes at the point where the data begins (preamble already read); a path on disk
+    from props.streams import RawForward
+    import tempfile
+    for i, b in enumerate(rnd.sample(strings, min(len(strings), scale(tier, 150)))):
+        exp = b[:4] == b"Obj\x01"
+        trials = []
+        for chunk in (1, 2, 3):
+            trials.append(("buffered/short-delivery-%d" % chunk, lambda chunk=chunk: io.BufferedReader(RawForward(b, chunk=chunk))))
+        for bufsize, pre in ((8, 5), (8, 6), (8, 7), (16, 13)):
+            def mk(bufsize=bufsize, pre=pre):
+                st = io.BufferedReader(RawForward(b"P" * pre + b), buffer_size=bufsize)
+                st.read(pre)
+                return st
+            trials.append(("buffered/after-preamble-%d-of-%d" % (pre, bufsize), mk))
+        if i % 10 == 0:
+            def mkpath():
+                d = tempfile.mkdtemp(prefix="verif_c05_")
+                p = os.path.join(d, "x.avro")
+                with open(p, "wb") as fo:
+                    fo.write(b)
+                return (d, p)
+            trials.append(("path", mkpath))
+        for kind, mk in trials:
+            st = mk()
+            try:
+                got = fastavro.is_avro(st[1] if kind == "path" else st)
+            except Exception as e:  # noqa
+                got = repr(e)
+            finally:
+                if kind == "path":
+                    os.remove(st[1])
+                    os.rmdir(st[0])
+            run.cov["evaluations"] += 1
+            run.tag("is_avro:" + kind.split("-")[0])
+            if got is not exp:
+                run.fail({"bytes": b.hex(), "is_avro": got, "expected": exp, "stream": kind, "tags": ["is_avro", "stream"]},
+                         "is_avro does not answer 'begins with the four magic bytes'", kind="oracle")
+                break
     return run.finish()
